@@ -28,7 +28,7 @@ impl<R: Read> HashingReader<R> {
 	ensures res.inv(),
 		res.consumed() == Seq::<u8>::empty(),
 		res.hasher is Some == hash /*[C11.hashing_iff_requested]*/,
-		res.hit_eof() == reader.hit_eof(),
+		res.hit_eof() == reader.hit_eof(), res.rest() == reader.rest(),
 //@end
 //@fn src/io/mod.rs | impl<R: Read> HashingReader<R> | into_digest | ret=res
 	requires self.inv(),
@@ -42,6 +42,7 @@ impl<R: Read> Read for HashingReader<R> {
 	open spec fn rest(&self) -> Seq<u8> { self.reader.rest() }
 	open spec fn consumed(&self) -> Seq<u8> { self.reader.consumed() }
 	open spec fn hit_eof(&self) -> bool { self.reader.hit_eof() }
+	open spec fn stable(&self) -> bool { self.hasher is Some }
 	// representation invariant: while hashing is on, the hasher has been fed exactly the bytes delivered
 	open spec fn inv(&self) -> bool {
 		self.reader.inv() && (self.hasher is Some ==> self.hasher->Some_0.fed() == self.reader.consumed())
@@ -52,14 +53,8 @@ impl<R: Read> Read for HashingReader<R> {
 
 impl<R: Read + Seek> Seek for HashingReader<R> {
 //@fn src/io/mod.rs | impl<R: Read + Seek> Seek for HashingReader<R> | seek | ret=res | sigsub=/std::io::Result<u64>/std::result::Result<u64, IoError>/
-//@end
-}
-impl<R: Read + Seek> HashingReader<R> {
-	// seeking disables hashing (checked as an extra contract on the same body)
-//@fn src/io/mod.rs | impl<R: Read + Seek> Seek for HashingReader<R> | seek | ret=res | twin=__disables_hash | sigsub=/std::io::Result<u64>/std::result::Result<u64, IoError>/
-	requires old(self).inv(),
-	ensures res is Ok ==> final(self).hasher is None /*[C11.seek_disables_hash]*/,
-		(*final(self)).inv(),
+	// (beyond the Seek contract) seeking disables hashing
+	ensures res is Ok ==> (*final(self)).hasher is None /*[C11.seek_disables_hash]*/,
 //@end
 }
 
